@@ -204,6 +204,25 @@ class DictIterMixin:
         self.__dict__.setdefault("_enum_info", {})[lst.t.get_id()] = (lst.t, EnumInfo(n, K, pos, eps, dss, d, ref_t))
         return lst
 
+    def enum_set(self, sv: V, env, tag):
+        """snapshot enumeration of a set[int] (characteristic array): a list K of length n with
+        (E1) every K[i] is a member and pos[K[i]] == i (pairwise distinct), (E2) every member k occurs at pos[k].
+        Nothing is assumed about the order.  (Added for C16.)"""
+        dom = sv.t
+        n = self.ctx.fresh_const(z3.IntSort(), tag + "_n")
+        K = self.ctx.fresh_const(z3.ArraySort(z3.IntSort(), z3.IntSort()), tag + "_K")
+        pos = self.ctx.fresh_const(z3.ArraySort(z3.IntSort(), z3.IntSort()), tag + "_pos")
+        i = z3.FreshConst(z3.IntSort(), "i")
+        k = z3.FreshConst(z3.IntSort(), "k")
+        A = self.ctx.assume
+        A(n >= 0)
+        A(_forall([i], z3.Implies(z3.And(0 <= i, i < n), z3.And(z3.Select(dom, z3.Select(K, i)), z3.Select(pos, z3.Select(K, i)) == i)), patterns=[z3.Select(K, i)]))
+        A(_forall([k], z3.Implies(z3.Select(dom, k), z3.And(0 <= z3.Select(pos, k), z3.Select(pos, k) < n, z3.Select(K, z3.Select(pos, k)) == k)), patterns=[z3.Select(pos, k), z3.Select(dom, k)]))
+        keys = sym.list_mk(TInt, n, K)
+        env.locals[tag + "_keys"] = keys
+        env.locals[tag + "_pos"] = V(TArr(TInt, TInt), pos)
+        return keys
+
     def take_enum_tag(self, default_prefix):
         t = getattr(self, "_enum_tag", None)
         self._enum_tag = None
